@@ -473,7 +473,7 @@ def make_world(repo=None):
     sp['string'] = lambda it: _mod('string', Formatter=FormatterModel())
     sp['sys'] = lambda it: _mod('sys', path=[], version_info=(3, 12, 1))
     sp['re'] = lambda it: _mod('re', compile=PBuiltin(lambda it, *a, **k: Opaque('re.compile'), 're.compile'), escape=PBuiltin(_re_escape, 're.escape'))
-    sp['collections'] = lambda it: _mod('collections', OrderedDict=PBuiltin(lambda it, *a, **k: V._b_dict(it, *a, **k), 'OrderedDict'), defaultdict=Opaque('defaultdict'))
+    sp['collections'] = lambda it: _mod('collections', OrderedDict=PBuiltin(lambda it, *a, **k: V._b_dict(it, *a, **k), 'OrderedDict'), defaultdict=PBuiltin(lambda it, factory=None, *a, **k: V.PDefaultDict(factory, V._b_dict(it, *a, **k).items), 'defaultdict'))
     sp['pprint'] = lambda it: _mod('pprint', pformat=PBuiltin(lambda it, *a, **k: Opaque('pformat')), pprint=PBuiltin(lambda it, *a, **k: None))
     sp['inspect'] = lambda it: _mod('inspect')
     sp['json'] = lambda it: _mod('json')
